@@ -34,6 +34,7 @@ type opd =
   | OPurge of int
   | OReopen
   | ORestart
+  | OCap of int
 
 let parse_op s =
   match split '.' s with
@@ -42,6 +43,7 @@ let parse_op s =
   | ["r"; mb; h] -> ORemove (int_of_string mb, int_of_string h)
   | ["p"; mb] -> OPurge (int_of_string mb)
   | ["R"] -> OReopen
+  | ["C"; n] -> OCap (int_of_string n)
   | ["X"] -> ORestart
   | _ -> failwith ("op " ^ s)
 
@@ -75,8 +77,15 @@ let id_of st mb h =
   let ids = st.tab.(mb) in
   if h >= 0 && h < List.length ids then List.nth ids h else s2l "nosuchid"
 
+(* the restarted id generator first produces this id again (kind "reissue") *)
+let force_reuse : str option ref = ref None
+let reissued_log : string list ref = ref []
+
 let mk_op ctx st o : op * int =
   match o with
+  | OAdd (mb, tok, date, seed, rep) when !force_reuse <> None ->
+      let id = (match !force_reuse with Some x -> x | None -> []) in
+      (Add (s2l (mbname ctx mb), s2l (info tok date), s2l (body seed rep), [id; s2l (Printf.sprintf "id%06d" st.nid)]), mb)
   | OAdd (mb, tok, date, seed, rep) ->
       (* candidates: first an id that is already in use in this mailbox (when there is one), so that
          the model's retry loop runs, then a fresh one *)
@@ -89,7 +98,7 @@ let mk_op ctx st o : op * int =
   | OSeen (mb, h) -> (Seen (s2l (mbname ctx mb), id_of st mb h), mb)
   | ORemove (mb, h) -> (Remove (s2l (mbname ctx mb), id_of st mb h), mb)
   | OPurge mb -> (Purge (s2l (mbname ctx mb)), mb)
-  | OReopen | ORestart -> failwith "mk_op"
+  | OReopen | ORestart | OCap _ -> failwith "mk_op"
 
 let res_string st mb = function
   | ROk -> "ok"
@@ -101,7 +110,7 @@ let res_string st mb = function
 (* a completed operation on the model *)
 let do_op ctx st o : string * st =
   match o with
-  | OReopen | ORestart -> ("-", st)     (* the state IS the disk: nothing to do *)
+  | OReopen | ORestart | OCap _ -> ("-", st)     (* the state IS the disk: nothing to do *)
   | _ ->
     let (op, mb) = mk_op ctx st o in
     let r = result_of dec ctx.hash ctx.capn op st.d in
@@ -111,7 +120,13 @@ let do_op ctx st o : string * st =
      | None -> ("MODEL-STEP-FAILS", st)
      | Some d' ->
         let tab = Array.copy st.tab in
-        (match r with RId id -> tab.(mb) <- tab.(mb) @ [id] | _ -> ());
+        (match r with
+         | RId id ->
+             let n = List.length tab.(mb) in
+             tab.(mb) <- List.mapi (fun j x ->
+               if x = id then begin
+                 reissued_log := !reissued_log @ [Printf.sprintf "k%d>k%d" j n]; s2l "reissued" @ x end else x) tab.(mb) @ [id]
+         | _ -> ());
         (rs, { d = d'; tab; nid = st.nid + 1 }))
 
 (* ---- rendering ------------------------------------------------------------------------ *)
@@ -329,19 +344,24 @@ let () =
              | Some r -> "fail:" ^ r) in
         Mlutil.print_model model verdict
     | "hist", [capf; poolf; opsf] ->
-        let ctx = mk_ctx capf poolf in
+        let ctx0 = mk_ctx capf poolf in
         let ops = parse_ops opsf in
-        (* the model: the state IS the disk, a reopen / restart changes nothing *)
-        let st = ref (init_st ctx) in
+        (* the model: the state IS the disk, a reopen / restart changes nothing (a new cap is configuration) *)
+        let ctxr = ref ctx0 in
+        let st = ref (init_st ctx0) in
         let res = ref [] and cks = ref [] and same = ref [] in
         List.iter (fun o ->
+          (match o with OCap n -> ctxr := { !ctxr with cap = n; capn = nat_of_int n } | _ -> ());
+          let ctx = !ctxr in
           match o with
-          | OReopen | ORestart ->
+          | OReopen | ORestart | OCap _ ->
               res := "-" :: !res; cks := (state ctx !st ^ "/" ^ visit_s ctx !st) :: !cks; same := "1" :: !same
           | _ -> let (r, st') = do_op ctx !st o in res := r :: !res; st := st') ops;
+        let ctx = !ctxr in
         let j sep l = if l = [] then "none" else String.concat sep (List.rev l) in
         let model = ["res=" ^ j "," !res; "cks=" ^ j "^" !cks; "same=" ^ j "," !same;
-                     "fin=" ^ state ctx !st ^ "/" ^ visit_s ctx !st; "retries=0"] in
+                     "fin=" ^ state ctx !st ^ "/" ^ visit_s ctx !st; "live=1"; "retries=0"; "reissued=none"] in
+        let sctx = ref ctx0 in
         (* the oracle: an ordered map of mailboxes that never restarts, replayed on the history *)
         let n = List.length ctx.pool in
         let ab = Array.make n [] and nadd = Array.make n 0 in
@@ -354,12 +374,13 @@ let () =
           | [h; a; b; c; _; e] -> String.concat "." [h; a; b; c; "1"; e] | _ -> m in
         List.iter (fun o ->
           match o with
+          | OCap c -> sctx := { !sctx with cap = c; capn = nat_of_int c }; sres := "-" :: !sres; scks := sstate () :: !scks
           | OReopen | ORestart -> sres := "-" :: !sres; scks := sstate () :: !scks
           | OAdd (mb, tok, date, seed, rep) ->
               let b = body seed rep in
               let m = String.concat "." [ "k" ^ string_of_int nadd.(mb); hexs (mbname ctx mb); hexs (info tok date);
                                           string_of_int (String.length b); "0"; digest b ] in
-              ab.(mb) <- spec_add ctx ab.(mb) m;
+              ab.(mb) <- spec_add !sctx ab.(mb) m;
               sres := ("k" ^ string_of_int nadd.(mb)) :: !sres; nadd.(mb) <- nadd.(mb) + 1
           | OSeen (mb, h) ->
               let hs = "k" ^ string_of_int h in
@@ -383,6 +404,27 @@ let () =
             else if has_sub isame "0" then "fail:state-differs-before-and-after-reopen"
             else if field outs "cks" <> j "^" !scks then "fail:state-after-reopen-differs-from-ordered-map"
             else if field outs "fin" <> sstate () then "fail:final-state-differs-from-ordered-map"
+            else if field outs "live" <> "1" then "fail:fresh-store-sees-another-state-than-the-live-store"
+            else if field outs "reissued" <> "none" then "fail:id-of-removed-message-reissued"
             else "ok" in
+        Mlutil.print_model model verdict
+    | "reissue", [capf; poolf] ->
+        let ctx = mk_ctx capf poolf in
+        let ops = parse_ops "a.0.w1.1600000001.6f6c64206d61696c0d0a.1,r.0.0,X,a.0.w2.1600000002.6e6577206d61696c0d0a.2" in
+        reissued_log := []; force_reuse := None;
+        let st = ref (init_st ctx) in
+        let res = ref [] in
+        List.iter (fun o ->
+          match o with
+          | ORestart ->
+              (* the new process's generator starts again at <second>-0000: the id of the removed message *)
+              force_reuse := Some (List.nth !st.tab.(0) 0); res := "-" :: !res
+          | _ -> let (r, st') = do_op ctx !st o in res := r :: !res; st := st') ops;
+        force_reuse := None;
+        let model = ["res=" ^ String.concat "," (List.rev !res); "fin=" ^ state ctx !st ^ "/" ^ visit_s ctx !st;
+                     "reissued=" ^ (if !reissued_log = [] then "none" else String.concat "," !reissued_log)] in
+        let verdict =
+          if field outs "reissued" <> "none" then "fail:id-of-removed-message-reissued"
+          else "ok" in
         Mlutil.print_model model verdict
     | _ -> Mlutil.print_model ["UNKNOWN-KIND"] "ok")
